@@ -258,3 +258,166 @@ func exploreBFS(c *vx.Ctx, props string, seeds []int, depth int, alpha []string,
 	c.Extra["bfs_distinct_states"] = len(seen)
 	c.Extra["bfs_seeds"] = seeds
 }
+
+// nodeAlphabet lists the environment events of the engine harness.
+func nodeAlphabet(level string) []string {
+	var a []string
+	add := func(s ...string) { a = append(a, s...) }
+	positions := []string{"", "@0,1", "@0,2", "@0,-1", "@1,0", "@-1,0", "@2,0"}
+	if level == "core" {
+		positions = []string{"", "@0,1"}
+	}
+	for _, p := range positions {
+		whos := []string{"o1", "o2", "oh"}
+		if level == "core" {
+			whos = []string{"o1", "oh"}
+		}
+		for _, who := range whos {
+			for _, t := range []string{"A", "B", "nil"} {
+				if level == "core" && t == "B" {
+					continue
+				}
+				add(fmt.Sprintf("V:p:%s:%s%s", who, t, p))
+			}
+			for _, t := range []string{"A", "nil"} {
+				add(fmt.Sprintf("V:c:%s:%s%s", who, t, p))
+			}
+		}
+		for _, k := range []string{"p", "c"} {
+			for _, t := range []string{"A", "B", "nil", "X"} {
+				if level == "core" && (t == "A" || t == "X") {
+					continue
+				}
+				add(fmt.Sprintf("V:%s:3:%s%s", k, t, p))
+			}
+		}
+		for _, b := range []string{"A", "B"} {
+			add("PH:" + b + p)
+		}
+	}
+	if level != "core" {
+		for _, k := range []string{"p", "c"} {
+			for _, v := range []string{"flip", "zerosig", "idlen1", "mix", "badpkh"} {
+				add(fmt.Sprintf("V:%s:3:A:%s", k, v))
+			}
+		}
+		for _, v := range []string{"forgedNext", "forgedCur", "badsig", "nokey", "badpcp"} {
+			add("PH:A:" + v)
+		}
+		for _, v := range replayVariants {
+			add("RP:" + v)
+		}
+	} else {
+		add("PH:A:forgedNext", "RP:ok")
+	}
+	add("SR", "SR:propose", "SR:A", "SR:B", "SR:nil", "SR:notready", "TF", "DR", "Tick", "BDA", "Restart")
+	if level != "core" {
+		add("SR:X", "SR:N")
+	}
+	return a
+}
+
+func nodeSingleDeviations(script []string, alpha []string) []string {
+	var out []string
+	for pos := 0; pos <= len(script); pos++ {
+		for _, ev := range alpha {
+			out = append(out, fmt.Sprintf("%d:+%s", pos, ev))
+		}
+	}
+	for pos, ev := range script {
+		out = append(out, fmt.Sprintf("%d:-", pos))
+		if ev == "SR" {
+			for _, ans := range []string{"propose", "A", "B", "nil", "notready", "N"} {
+				out = append(out, fmt.Sprintf("%d:~SR:%s", pos, ans))
+			}
+		}
+	}
+	return out
+}
+
+func nodeJob(props string, devs ...string) vx.Job {
+	return vx.Job{Exec: "node", Hist: devs, Args: map[string]string{"props": props, "mode": "dev"}}
+}
+
+// exploreNode runs the engine's benign script with 0, 1 and (core alphabet, thorough) 2 deviations, then BFS from seeds.
+func exploreNode(c *vx.Ctx, props string, maxDev int, bfsDepth int, st *exploreStats, each func(j vx.Job, r vx.Result)) {
+	pl := strings.Split(props, ",")
+	script := nodeScript()
+	jobs := []vx.Job{nodeJob(props)}
+	singles := nodeSingleDeviations(script, nodeAlphabet("full"))
+	for _, d := range singles {
+		jobs = append(jobs, nodeJob(props, d))
+	}
+	c.Extra["engine_script_len"] = len(script)
+	c.Extra["engine_alphabet_full"] = len(nodeAlphabet("full"))
+	c.Extra["engine_single_deviations"] = len(singles)
+	done := runJobs(c, jobs, st, pl, each)
+	completed := 0
+	if done {
+		completed = 1
+	}
+	if done && maxDev >= 2 {
+		core := nodeSingleDeviations(script[:24], nodeAlphabet("core"))
+		var pairs []vx.Job
+		for i, d1 := range core {
+			p1 := devPos(d1)
+			for k, d2 := range core {
+				p2 := devPos(d2)
+				if p2 < p1 || (p2 == p1 && k == i) {
+					continue
+				}
+				pairs = append(pairs, nodeJob(props, d1, d2))
+			}
+		}
+		c.Extra["engine_double_deviations"] = len(pairs)
+		if runJobs(c, pairs, st, pl, each) {
+			completed = 2
+		}
+	}
+	c.Extra["engine_deviation_bound_completed"] = completed
+	if bfsDepth > 0 {
+		seen := map[string]struct{}{}
+		type node struct {
+			seed int
+			hist []string
+		}
+		alpha := nodeAlphabet("core")
+		frontier := []node{{0, nil}, {4, nil}, {17, nil}, {22, nil}}
+		levelDone := -1
+		for d := 0; d <= bfsDepth && len(frontier) > 0; d++ {
+			js := make([]vx.Job, len(frontier))
+			for i, n := range frontier {
+				js[i] = vx.Job{Exec: "node", Hist: n.hist, Args: map[string]string{"props": props, "mode": "raw", "seed": fmt.Sprint(n.seed)}}
+			}
+			var next []node
+			ok := runJobs(c, js, st, pl, func(j vx.Job, r vx.Result) {
+				if each != nil {
+					each(j, r)
+				}
+				if r.Crash != "" || r.HarnessErr != "" || r.Key == "" {
+					return
+				}
+				k := vx.ShortHash(r.Key)
+				if _, dup := seen[k]; dup {
+					return
+				}
+				seen[k] = struct{}{}
+				if d == bfsDepth {
+					return
+				}
+				var sd int
+				fmt.Sscan(j.Args["seed"], &sd)
+				for _, ev := range alpha {
+					next = append(next, node{sd, append(append([]string{}, j.Hist...), ev)})
+				}
+			})
+			if !ok {
+				break
+			}
+			levelDone = d
+			frontier = next
+		}
+		c.Extra["engine_bfs_depth_completed"] = levelDone
+		c.Extra["engine_bfs_distinct_states"] = len(seen)
+	}
+}
